@@ -80,6 +80,7 @@ Ctor1(E, K) ==
   \cup { <<"ntuple", "NT", << <<"a", e, <<"req">> >>, <<"b", <<"int">>, <<"val", I(9)>> >> >> >> : e \in E }
   \cup { <<"tdict", "TD", << <<"k", e, TRUE>>, <<"o", <<"int">>, FALSE>> >> >> : e \in E }
   \cup { <<"newtype", "NTy", e>> : e \in E }
+  \cup { <<"alias695", "TA", e>> : e \in E }
   \* (a wrapper around a type that has null among its values shares the wire form null with Optional's None: the statement's exclusion)
   \cup { <<"stype", "SW", e>> : e \in E \ { <<"any">>, <<"none">> } }
 
@@ -121,7 +122,7 @@ Smp(T) ==
     [] T[1] = "opt" -> << None >> \o Smp(T[2])
     [] T[1] = "union" -> LET ss == [i \in DOMAIN T[2] |-> Smp(T[2][i])] IN
                          [i \in DOMAIN T[2] |-> FirstOf(ss[i])] \o [i \in DOMAIN T[2] |-> LastOf(ss[i])]
-    [] T[1] = "newtype" -> Smp(T[3])
+    [] T[1] \in {"newtype", "alias695"} -> Smp(T[3])
     [] T[1] = "stype" -> LET e == Smp(T[3]) IN [i \in DOMAIN e |-> <<"sobj", T[2], e[i]>>]
     [] T[1] \in {"final", "annotated"} -> Smp(T[2])
     [] T[1] \in {"fwd", "tvarc", "tvarb"} -> Smp(T[3])
